@@ -1114,7 +1114,42 @@ def install(reg):
     # ------------------------------------------------------------------ linalg
     @fn("numpy.linalg.norm")
     def np_norm(itp, a, k):
-        raise Unsupported("np.linalg.norm")
+        v = to_array(itp, a[0])
+        axis = k.get("axis", a[1] if len(a) > 1 else None)
+        keep = k.get("keepdims", False)
+        cx = itp.cx
+        if v.ndim == 2 and axis in (1, -1) and isinstance(v.shape[1], int) and v.shape[1] <= 8:
+            g = v.getter()
+            m = v.shape[1]
+
+            def row_norm(kk):
+                s = 0
+                for j in range(m):
+                    s = T.add(s, T.mul(g((kk, j)), g((kk, j))))
+                return mathfn.apply(cx, "sqrt", s)
+            _trust(itp, "linalg.norm(x, axis=1)[k] = sqrt(sum_j x[k,j]^2)")
+            if keep:
+                return SArr.fresh((v.shape[0], 1), lambda idx: row_norm(idx[0]), "real")
+            return SArr.fresh((v.shape[0],), lambda idx: row_norm(idx[0]), "real")
+        raise Unsupported("np.linalg.norm of this shape / axis")
+
+    class _RandomState(Opaque):
+        type_name = "RandomState"
+
+        def __init__(self, seed):
+            self.seed = seed
+
+        def call_method(self, itp, name, args, kwargs):
+            if name == "normal":
+                size = kwargs.get("size", args[2] if len(args) > 2 else None)
+                shape = tuple(term_of(x) for x in size) if isinstance(size, (tuple, list)) else (term_of(size),)
+                o = itp.cx.ordinal("rsnormal")
+                f = T.uf(f"rs_normal!{o}", *(["int"] * len(shape) + ["real"]))
+                itp.cx.trusted.add("numpy.random.RandomState(seed).normal is a deterministic function of the seed")
+                return SArr.fresh(shape, lambda idx: f(*[T.zi(i) for i in idx]), "real", name="normal")
+            raise Unsupported("RandomState." + name)
+
+    reg.register("numpy.random.RandomState", Builtin("RandomState", lambda itp, a, k: _RandomState(k.get("seed", a[0] if a else None))))
 
     # ------------------------------------------------------------------ random
     # (Generator model lives in scipy_models: shared ghost RNG)
